@@ -86,6 +86,35 @@ def run(chk, tier):
     chk.rule("R-OBLIG", "after a public register and after a restrict the kinds are re-ranked / restricted: calls present under their own NO_CPUKINDS test only")
     f = P.need_func("hwloc_cpukinds_register", "cpukinds.c")
     chk.inst("R-OBLIG", f, "rank-after-register", any(True for c in f.calls("hwloc_internal_cpukinds_rank")), "hwloc_cpukinds_register re-ranks the kinds")
+    # ... and does so on EVERY successful path once the internal registration has run (a registration without efficiency or infos
+    # can still create or split kinds: they would keep efficiency -1 next to ranked ones).  Evaluated: integer and pointer parameters
+    # forked over {0, 1} / {-1, 0, 1}; every non-failing return reached after the registration call has called the ranking.
+    import peval as _pe
+    from prog import AnalysisBroken as _AB
+    missing = []
+    nret = [0]
+    def _obx(kind, nd, e, missing=missing, nret=nret, f=f):
+        v = None
+        if kind == "return" and nd is not None and nd.get("c") and nd["c"][0] is not None:
+            v = _pe.Evaluator(f, e).ev(nd["c"][0])
+        if v is None or v < 0:
+            return      # a failing return, or `return err` on the outcome where the registration failed with a value not known here
+        if e.get("#hwloc_internal_cpukinds_register"):
+            nret[0] += 1
+            if not e.get("#hwloc_internal_cpukinds_rank"):
+                missing.append(f.loc(nd) if nd is not None else f.name)
+    starts = []
+    for fe in (-1, 0, 3):
+        for inf in (0, 1):
+            starts.append({"forced_efficiency": fe, "infos": inf, "flags": 0, "topology->adopted_shmem_addr": 0})
+    try:
+        _pe.PathEval(P, f, starts[0], is_effect=lambda *z: False, through_effects=True, observe_exit=_obx, starts=starts[1:],
+                     markers={"hwloc_internal_cpukinds_register", "hwloc_internal_cpukinds_rank"}, track=set(starts[0]) | {"err"}, maxstates=50000).run()
+        chk.inst("R-OBLIG", f, "rank-on-every-success", not missing and nret[0] > 0,
+                 "every successful return of hwloc_cpukinds_register reached after the internal registration (forced_efficiency in {-1,0,3}, infos NULL or not) has re-ranked the kinds%s"
+                 % ("" if not missing else " -- but the return at %s is reached without: new or split kinds keep efficiency -1 next to ranked ones" % missing[0]))
+    except _AB as ex:
+        chk.broke("R-OBLIG: hwloc_cpukinds_register not evaluable (%s)" % ex)
     r = P.need_func("hwloc_topology_restrict", "topology.c")
     m = must.Must(r).run()
     cs = list(r.calls("hwloc_internal_cpukinds_restrict"))
